@@ -12,7 +12,7 @@ ASSUMPTIONS = {
     "A6": "A6 trusted leaves of the repository (external_body, contract assumed, body is one std call Verus cannot specify): parser::to_str, Element::new, Element::get_child, Element::get_child_mut, Element::remove_child, Element::merge_attr (assume_specification: attributes become spec_merge(old, arg), nothing else changes)",
         "A8": "A8 renderer frame: to_serde_struct is an unverified deterministic function of the tree (the contracts stop at the Element tree; the rendered text is outside the verifier)",
     "V": "Verus 0.2026.09.13 + Z3 are trusted; vstd's specifications of Vec, Option, Result, HashMap, slice iterators, String::clone are trusted; termination of spec functions is checked by Verus",
-    "H": "'unique for all operation sequences' / 'for all histories of extend' is the induction over the per-operation contracts (constructor establishes, every operation preserves); that induction step is the standard meta-argument and is not itself machine-checked",
+    "H": "'unique for all operation sequences' / 'for all histories of extend' / 'across all occurrences' is the induction over the per-operation contracts (constructor establishes, every operation preserves); that induction step is the standard meta-argument and is not itself machine-checked",
 }
 
 PROPS = {
@@ -34,9 +34,12 @@ PROPS = {
             "claim": "no arithmetic overflow, out-of-bounds access or failing unwrap, and termination (decreases) of every function under contract, for all event streams"},
     "C08": {"units": ALL_PARSER, "assumes": ["A1", "A2", "A3", "A4", "A5", "A6", "V"],
             "claim": "Ok/Err verdict of the parser equals the independent stream-order oracle scan() over the same events"},
-    "C01": {"units": ALL_PARSER, "assumes": ["A1", "A2", "A3", "A4", "A5", "A6", "A8", "V"], "claim": ""},
-    "C06": {"units": ALL_PARSER, "assumes": ["A1", "A2", "A3", "A4", "A5", "A6", "A8", "H", "V"], "claim": ""},
-    "C09": {"units": ALL_PARSER, "assumes": ["A1", "A2", "A3", "A4", "A5", "A6", "A8", "V"], "claim": ""},
+    "C01": {"units": ALL_PARSER, "assumes": ["A1", "A2", "A3", "A4", "A5", "A6", "A8", "H", "V"],
+            "claim": "T1 + one-step soundness theorems (theorem_occurrence_start/_empty, theorem_c15) over the ghost algorithm"},
+    "C06": {"units": ALL_PARSER, "assumes": ["A1", "A2", "A3", "A4", "A5", "A6", "A8", "H", "V"],
+            "claim": "T1 on extend_struct + extend == one more root occurrence + element-less no-op + one-step monotonicity; order independence / idempotence bounded only"},
+    "C09": {"units": ALL_PARSER, "assumes": ["A1", "A2", "A3", "A4", "A5", "A6", "A8", "V"],
+            "claim": "T1 + theorem_level_order (position order == first-appearance order) + attribute order by merge_necessity's contract; renderer sort bounded only"},
     "C11": {"units": ALL_PARSER, "assumes": ["A1", "A2", "A3", "A4", "A5", "A6", "A8", "V"],
             "claim": "T1 (tree == g_build(abstract events)) + theorem_norm (g_build depends only on the normal form of the stream: ignorable events dropped, CDATA == text, text content erased, <x/> == <x></x>); attribute values are not part of the event model"},
 }
